@@ -59,11 +59,13 @@ class EPModel(KModel):
         self.lead = lead
         self.data_dim = Dim(data_items)
         data = Obj('ndarr', name='data', shape=self.data_dim, role='data')
+        from . import layout
         fields = {'x': Obj('ndarr', name='x', shape=Dim([('s', 'd0')]), role='axis'), 'data': data, 'strategy': strategy}
         if lead == 2:
             fields['y'] = Obj('ndarr', name='y', shape=Dim([('s', 'd1')]), role='axis')
-        adt = 'interp1d::Interp1D' if lead == 1 else 'interp2d::Interp2D'
-        self.ip = Enum(adt, adt.split('::')[-1], fields)
+        adt = 'Interp1D' if lead == 1 else 'Interp2D'
+        self.ip = layout.make(adt, **fields)
+        self.ip_strategy = strategy
         return self.ip
 
     def trail(self):
@@ -109,15 +111,15 @@ class EPModel(KModel):
     def call(self, name, cal, args, e, frame):
         last = name.split('::')[-1]
         a0 = deref_all(args[0]) if args else None
-        if name == 'cast_unchecked':
+        if self.interp.lib.is_role(name, 'cast_unchecked'):
             self.events.append(('cast', ))
             return args[0]
         if name == 'std::any::TypeId::of':
             return Obj('typeid', ty=cal['gargs'][0])
         # ---- the strategy sink (trait method on the opaque strategy)
-        if name in ('interp1d::strategies::Interp1DStrategy::interp_into', 'interp2d::strategies::Interp2DStrategy::interp_into'):
+        if name in ('Interp1DStrategy::interp_into', 'Interp2DStrategy::interp_into'):
             return self.sink(args, e)
-        if name in ('interp1d::strategies::Interp1DStrategyBuilder::build', 'interp2d::strategies::Interp2DStrategyBuilder::build'):
+        if name in ('Interp1DStrategyBuilder::build', 'Interp2DStrategyBuilder::build'):
             return NotImplemented
         if name == 'std::clone::Clone::clone' and isinstance(a0, Obj):
             return a0
@@ -187,7 +189,7 @@ class EPModel(KModel):
             return NotImplemented
         if name == 'std::iter::Iterator::copied' and isinstance(a0, Obj) and a0.kind == 'dimseq':
             return a0
-        if name == 'dim_extensions::DimExtension::new' and isinstance(a0, Obj) and a0.kind == 'dimseq':
+        if self.interp.lib.is_role(name, 'DimExtension::new') and isinstance(a0, Obj) and a0.kind == 'dimseq':
             return Dim(a0.d['dim'].items)
         if name == 'std::iter::IntoIterator::into_iter' or name.endswith('as std::iter::IntoIterator>::into_iter'):
             return a0
@@ -471,7 +473,7 @@ class EPModel(KModel):
         qs = [deref_all(a) for a in args[3:]]
         rec = {
             'elem': getattr(self, 'cur_elem', None),
-            'self_is_strategy_field': strat is self.ip.fields['strategy'],
+            'self_is_strategy_field': strat is self.ip_strategy,
             'interp_is_self': interp is self.ip,
             'target': target,
             'queries': [str(q.r) if isinstance(q, Num) else repr(q) for q in qs],
